@@ -4,7 +4,9 @@
 \*   content  9 operations classes x 11 map classes x {memory, temp file}
 \*   cut      4 places where the body ends early x {memory, temp file}
 \*   size     3 limit configurations x 8 total lengths around MaxMemory / MaxUploadSize x {known length, chunked}
-\* Measured: see notes/C10.md (every action except WalkPanic - disabled by FixWalk - is taken).
+\* Measured: 8,264 inputs (order 6,248, path 1,768, content 198, cut 8, size 42), 62,447 distinct states
+\* (74,651 generated), depth 22, 5-15 s with -workers 1 (Export needs -workers 1); every action except
+\* WalkPanic (disabled by FixWalk) is taken.
 CONSTANTS
   MaxParts = 4
   Depth = 3
